@@ -19,8 +19,8 @@ import (
 )
 
 // lengths 4 and 8: not multiples of 3, so that the base64 padding matters
-// (the third list's base64 text, "/G0baq==", is the first one's, "/g0BAQ==", with the letter case swapped: different lists)
-var cfgLists = [][]byte{{0xfe, 0x0d, 1, 1}, {0xfe, 0x0d, 2, 2, 2, 2, 2, 2}, {0xfc, 0x6d, 0x1b, 0x6a}}
+// (lists 2 and 3 are different lists whose base64 texts, "AQIDBAUG" and "aqidbaug", differ only in letter case)
+var cfgLists = [][]byte{{0xfe, 0x0d, 1, 1}, {0xfe, 0x0d, 2, 2, 2, 2, 2, 2}, {1, 2, 3, 4, 5, 6}, {0x6a, 0xa8, 0x9d, 0x6d, 0xab, 0xa0}}
 
 func b64(i int) string { return base64.StdEncoding.EncodeToString(cfgLists[i]) }
 
@@ -319,7 +319,7 @@ func dupKindAny(ts []int) string {
 }
 
 func Run(r *ev.Run) {
-	r.Rule("E4 histories of publishes on a fresh publisher + in-memory Cloudflare fake: initial value of the first record over 9 parameter strings (empty, no ech, ech first/middle/last, two ech entries, already current quoted/unquoted, a tab inside a quoted value with double blanks between parameters), zone on one page or spread over three pages (48 records), the API honouring the requested page size or capping it at 7/10/19 records per page; a record without parameters listed without its value member; calls = (target list over {r1, r2, missing record, unknown zone, record of a second zone} incl. duplicates, config list L1/L2, plus a third list whose base64 text differs from L1's only in letter case); the zones also hold A/TXT records under the targets' names; ALL histories of <=2 calls with lists of length <=2 (thorough <=3) and ALL histories of 3 calls with lists of length <=1; E2: a single API failure {HTTP 400, success:false with and without an errors list, malformed JSON, the caller's context cancelled} at every request index of every call (1-call and 2-call histories). A map-based model predicts each status; store and request log are checked after each call. distinct = distinct scenarios")
+	r.Rule("E4 histories of publishes on a fresh publisher + in-memory Cloudflare fake: initial value of the first record over 9 parameter strings (empty, no ech, ech first/middle/last, two ech entries, already current quoted/unquoted, a tab inside a quoted value with double blanks between parameters), zone on one page or spread over three pages (48 records), the API honouring the requested page size or capping it at 7/10/19 records per page; a record without parameters listed without its value member; calls = (target list over {r1, r2, missing record, unknown zone, record of a second zone} incl. duplicates, config list L1/L2, plus two lists whose base64 texts differ from each other only in letter case); the zones also hold A/TXT records under the targets' names; ALL histories of <=2 calls with lists of length <=2 (thorough <=3) and ALL histories of 3 calls with lists of length <=1; E2: a single API failure {HTTP 400, success:false with and without an errors list, malformed JSON, the caller's context cancelled} at every request index of every call (1-call and 2-call histories). A map-based model predicts each status; store and request log are checked after each call. distinct = distinct scenarios")
 	r.Assume("parameter values contain no blanks (the publisher splits on single spaces); tabs inside quoted values and runs of blanks between parameters are in the alphabet", "a record that already carries several ech entries whose last one is current is outside the alphabet",
 		"the fake API follows Cloudflare v4 list semantics: result_info.count is the number of items on the page, total_count the total")
 	maxList := 2
@@ -399,7 +399,7 @@ func Run(r *ev.Run) {
 			if len(a.Targets) != 1 || a.Config != 0 {
 				continue
 			}
-			scs = append(scs, scenario{V1: v, Calls: []call{a, {a.Targets, 2}}, FailCall: -1}, scenario{V1: v, Calls: []call{{a.Targets, 2}, a}, FailCall: -1}, scenario{V1: v, Calls: []call{{a.Targets, 2}, {a.Targets, 2}}, FailCall: -1})
+			scs = append(scs, scenario{V1: v, Calls: []call{{a.Targets, 2}, {a.Targets, 3}}, FailCall: -1}, scenario{V1: v, Calls: []call{{a.Targets, 3}, {a.Targets, 2}}, FailCall: -1}, scenario{V1: v, Calls: []call{{a.Targets, 2}, {a.Targets, 2}}, FailCall: -1}, scenario{V1: v, Calls: []call{a, {a.Targets, 3}}, FailCall: -1})
 		}
 	}
 	r.Set("scenarios", len(scs))
